@@ -6,6 +6,7 @@ CONSTANTS
   MaxDir = 2
   Sizes <- SizesAll
   Dev <- Dev_NoDropReport
+  EnvOn <- EnvNone
   MaxHist = 60
 VIEW view
 INVARIANTS TypeOK OneWriter LockHeld Flushed SentOnWire NoDup Accounted NoGhost Ordered
